@@ -17,7 +17,7 @@ VERDICT = "c15_verdict"
 EXPLAIN = "c15_explain"
 CASES_PER_FILE = 150
 CASE_TIMEOUT = 20
-TIERS = {"quick": {"n": 4000}, "thorough": {"n": 80000}}
+TIERS = {"quick": {"n": 4000}, "thorough": {"n": 60000}}
 FUEL = 4000
 RULE = ("calls of backoff / backoff_iter(+ at most `take` next() calls) with binary64 start/stop/factor built around "
         "start*factor^k +-{0,1,2} ulp (subnormal, tiny, ordinary, huge, overflowing magnitudes; start 0/-0.0; stop<1), "
